@@ -257,26 +257,29 @@ ObserversAreNotMembers == \A n \in Nodes : Live(n) => node[n].others \cap Observ
 (* in the quiet period succeeded, every running node has the same applied position and the same state       *)
 LiveNodes == {n \in Nodes : Live(n)}
 LiveVoters == {n \in LiveNodes : IsVoter(n)}
-Converged ==
-  LET leaders == {n \in LiveVoters : node[n].role = "L"}
+(* Q: the running nodes that enjoyed the quiet period (all of them, or all but a cut-off minority of the voters) *)
+ConvergedIn(Q) ==
+  LET QV == Q \cap LiveVoters
+      leaders == {n \in QV : node[n].role = "L"}
       \* the precondition of the property: a majority of the members can exchange messages
       members(n) == node[n].others \cup {n}
-      ok(n) == 2 * Cardinality(members(n) \cap LiveVoters) > Cardinality(members(n))
-  IN (\E n \in LiveVoters : ok(n) /\ \A m \in LiveVoters : members(m) = members(n)) =>
+      ok(n) == 2 * Cardinality(members(n) \cap QV) > Cardinality(members(n))
+  IN (\E n \in QV : ok(n) /\ \A m \in QV : members(m) = members(n)) =>
      /\ Cardinality(leaders) = 1
      /\ \A l \in leaders :
-           /\ \A n \in LiveNodes \cap (members(l) \cup Observers) : node[n].leader = l /\ node[n].term = node[l].term
-           /\ \A n \in LiveNodes \cap (members(l) \cup Observers) :
+           /\ \A n \in Q \cap (members(l) \cup Observers) : node[n].leader = l /\ node[n].term = node[l].term
+           /\ \A n \in Q \cap (members(l) \cup Observers) :
                  node[n].applied = node[l].applied /\ node[n].hist = node[l].hist /\ node[n].commit = node[l].commit
            /\ node[l].commit = LastIdx(node[l])
      /\ \A c \in QuietCids : c \in DOMAIN cbs /\ \E k \in 1..Len(cbs[c]) : cbs[c][k][2] = SUCCESS
+Converged == ConvergedIn(LiveNodes)
 
 (* signature of known finding KF5: a follower whose LAST entry conflicts with the leader's log, several batches *)
 (* behind: every round the leader's first batch is answered with the useful hint (retry from the conflicting    *)
 (* index) but the batches sent after it in the same pass are answered with 'I miss your previous entry, send    *)
 (* from my last index + 1', which overwrites the useful hint - the follower is never repaired                    *)
-ResetLivelockSig ==
-  \E l \in LiveVoters : node[l].role = "L" /\ \E f \in (node[l].others \cup node[l].ro) \cap LiveNodes :
+ResetLivelockSigIn(Q) ==
+  \E l \in LiveVoters \cap Q : node[l].role = "L" /\ \E f \in (node[l].others \cup node[l].ro) \cap Q :
      LET fl == node[f].log
          ll == node[l].log
          TermIn(lg, j) == IF lg = <<>> \/ j < lg[1].idx \/ j > Last(lg).idx THEN -1 ELSE lg[j - lg[1].idx + 1].term
@@ -290,6 +293,8 @@ ResetLivelockSig ==
                RECURSIVE SumFrom(_)
                SumFrom(q) == IF q > Len(ll) THEN 0 ELSE ll[q].sz + SumFrom(q + 1)
            IN IF UseBatch THEN SumFrom(p0) > BatchBytes ELSE Len(ll) - p0 + 1 >= 2
+
+ResetLivelockSig == ResetLivelockSigIn(LiveNodes)
 
 HoldsLogS(lg, e) == (\E k \in 1..Len(lg) : lg[k] = e) \/ (lg # <<>> /\ e.idx < lg[1].idx)
 (* C04 (premise of the commit rule): what a leader believes a follower stores, the follower stores - as long as the     *)
